@@ -14,6 +14,8 @@ RULE = ('one input = (label, dt, values) saved with eqsig.save_signal (Signal an
         'non-trivial = at least one value is not an integer multiple of 1e-6 or dt is not a multiple of 1e-4 or m != 1 or the label is not the default')
 TRUSTED = [
     'Coq 8.16.1 kernel + vm_compute',
+    'translator/py2coq_c16.py (re-run on every check) + the C16_*_is_source theorems for the statements of save_values_and_dt, save_signal, load_values_and_dt, load_signal, load_sig, load_asig; '
+    'its oracles (str.splitlines / str.split / float / binary64 product = the model readers; np.genfromtxt = any function with the stated contract) are tied by the correspondence only',
     'hand-written model coq/lib/DecFmt.v (printf %.df of an exact binary value with ties-to-even, decimal parser, nearest-binary64 rounding) and coq/model/M_loader.v; tie = byte-exact / bit-exact correspondence of this run (model/K_C16.v)',
     'np.genfromtxt is modelled (skip one line, names line, column 0 of each non-blank line through float()), not verified; CPython float formatting/parsing is assumed correctly rounded and is measured by the same correspondence',
     'binary64 overflow/NaN/inf are outside the model and outside every generator; labels are printable ASCII (no line-break characters)',
@@ -313,8 +315,22 @@ def same_path_sequences(ctx, rng, tier):
             pass
 
 
+def regen_c16():
+    """re-translate save_values_and_dt / save_signal / load_values_and_dt / load_signal / load_sig / load_asig (eqsig/loader.py)
+    and the constructor defaults of eqsig/single.py into coq/gen/Gen_c16.v (fail closed): the `C16_*_is_source` theorems of
+    Prop_C16 are then re-proved against the code that is in the repo now"""
+    import sys
+    try:
+        sys.path.insert(0, os.path.join(core.VERIF, 'translator'))
+        import py2coq_c16
+        py2coq_c16.regenerate(repo=core.REPO)
+    except Exception as e:
+        return 'py2coq_c16: %s: %s' % (type(e).__name__, e)
+    return None
+
+
 def run(rep, rng, tier):
-    rep.prove('Prop_C16')
+    rep.prove('Prop_C16', gen_failed=regen_c16())
     ctx = Ctx(rep)
     try:
         N = 110 if tier == 'quick' else 600
